@@ -58,7 +58,7 @@ def pt(v):
     return np.asarray(v, dtype=float).reshape(-1)
 
 
-def check_curve(g, verts=None, circle=False):
+def check_curve(g, verts=None, circle=False, light=False):
     """All curve clauses on the alphabet; returns (list of (tag, detail), number of evaluations)."""
     errs = []
     n = 0
@@ -111,7 +111,7 @@ def check_curve(g, verts=None, circle=False):
     # ... and for parameter arrays in EVERY order class: reversed, every cyclic rotation, interleaved, and for every ordered
     # pair of pieces (i, j) an array that starts and ends on piece i with entries of piece j (interior and break points) between
     AA = list(A)
-    orders = [('reversed', AA[::-1]), ('interleaved', AA[::2] + AA[1::2])] + [('rotation%d' % r, AA[r:] + AA[:r]) for r in range(1, len(AA))]
+    orders = [('reversed', AA[::-1]), ('interleaved', AA[::2] + AA[1::2])] + [('rotation%d' % r, AA[r:] + AA[:r]) for r in (sorted({1, len(AA) // 2, len(AA) - 1}) if light else range(1, len(AA)))]
     npc = len(g.pw_gamma)
     inner = [[x for x in AA if g.pw_start[i] < x < g.pw_start[i + 1]] for i in range(npc)]
     for i in range(npc):
@@ -206,14 +206,18 @@ def lattice_polygons(nmax=8, K=3):
 
 
 def polygon_task(verts):
+    """verts: closed vertex list (first == last), or ('open', vertex list) for the open polyline without the closing side."""
+    is_open = verts and verts[0] == 'open'
+    if is_open:
+        verts = verts[1]
     V = [np.array(v) for v in verts]
     try:
-        g = P.PiecewisePolygon(V)
+        g = P.PiecewisePolygon(V, closed=False) if is_open else P.PiecewisePolygon(V)
     except AssertionError:
         return 'rejected', [], 0
     except Exception as ex:
         return 'raised', [('polygon-constructor-raised', repr(ex))], 1
-    errs, n = check_curve(g, verts=[tuple(map(float, v)) for v in verts])
+    errs, n = check_curve(g, verts=[tuple(map(float, v)) for v in verts], light=True)
     return 'accepted', errs, n
 
 
@@ -344,10 +348,15 @@ def run(ctx):
     ncases = 0
     per = {}
     # 1. shipped curves
-    for cname in CURVES:
-        g = meshmc.curve(cname)
+    for cname in CURVES + ('ThinRect', 'ShiftedSquare', 'OpenEll'):  # the custom polygons (the curved custom curves serve C09 / C20)
+        try:
+            g = meshmc.curve(cname)
+        except Exception as ex:  # noqa: BLE001 - integer / dyadic vertices are bit-exact: the constructor has no reason to refuse
+            ctx.violation({'part': 'curve', 'curve': cname, 'tag': 'constructor-raised'}, 'curve {}: the constructor raised {!r}'.format(cname, ex),
+                          {'part': 'curve', 'curve': cname})
+            continue
         errs, n = check_curve(g, verts=EXPECTED_VERTS.get(cname), circle=(cname == 'Circle'))
-        if g.closed != (cname != 'UnitInterval'):
+        if g.closed != (cname not in ('UnitInterval', 'OpenEll')):
             errs.append(('closed-flag', g.closed))
         ncases += n
         per['curve:' + cname] = n
@@ -356,6 +365,9 @@ def run(ctx):
                           {'part': 'curve', 'curve': cname})
     # 2. lattice polygons
     polys = lattice_polygons(8 if ctx.tier == 'thorough' else 6, 3 if ctx.tier == 'thorough' else 3)
+    # ... and the open polylines obtained by dropping the closing side (they end in a vertex that is not the start vertex)
+    n_closed = len(polys)
+    polys = polys + [('open', v[:-1]) for v in polys]
     res = pmap(polygon_task, polys, ctx.jobs)
     acc = rej = 0
     for verts, (status, errs, n) in zip(polys, res):
@@ -365,7 +377,7 @@ def run(ctx):
         for tag, d in errs[:2]:
             ctx.violation({'part': 'polygon', 'tag': tag}, 'lattice polygon {}: {} {}'.format(verts, tag, d),
                           {'part': 'polygon', 'vertices': verts})
-    per['polygons'] = {'enumerated': len(polys), 'accepted': acc, 'rejected_by_constructor': rej}
+    per['polygons'] = {'enumerated': len(polys), 'closed': n_closed, 'open_polylines': len(polys) - n_closed, 'accepted': acc, 'rejected_by_constructor': rej}
     if acc < 10:
         raise common.HarnessError('polygon enumeration vacuous')
     # 3. meshes
@@ -419,7 +431,8 @@ def replay(ctx, data):
         g = meshmc.curve(data['curve'])
         errs, n = check_curve(g, verts=EXPECTED_VERTS.get(data['curve']), circle=(data['curve'] == 'Circle'))
     elif data['part'] == 'polygon':
-        status, errs, n = polygon_task([tuple(v) for v in data['vertices']])
+        vv = data['vertices']
+        status, errs, n = polygon_task(('open', [tuple(v) for v in vv[1]]) if vv and vv[0] == 'open' else [tuple(v) for v in vv])
         print('constructor:', status)
     elif data['part'] == 'mesh-history':
         errs, n = grid_history_task(data['curve'])
